@@ -24,6 +24,24 @@ func optNames(d *Decl) (short, long string) {
 	return
 }
 
+// drawDesc draws a description as it appears in help texts: mostly none, sometimes short, multi-line,
+// with non-ASCII text or with one long unbroken word (a URL).
+func drawDesc(t *Tape) string {
+	switch t.Draw(10) {
+	case 0:
+		return "a short description"
+	case 1:
+		return "first line\nsecond line\n  indented third line"
+	case 2:
+		return "see https://example.com/" + strings.Repeat("0123456789", 9) + " for details"
+	case 3:
+		return "naïve café ☕ 值 …"
+	case 4:
+		return strings.Repeat("word ", 40)
+	}
+	return ""
+}
+
 type DeclSet struct {
 	Opts []*Decl
 	Args []*Decl
@@ -59,6 +77,7 @@ func genDeclsKinds(t *Tape, envProb int, stringOnly bool) *DeclSet {
 		}
 		if t.Draw(8) < envProb {
 			d.EnvVars = []int{i}
+			d.EnvPad = []string{"", "", "", " ", "\n", "\t"}[t.Draw(6)]
 		}
 		if t.Draw(3) == 0 {
 			ek := elemKind(d.Kind)
@@ -67,6 +86,10 @@ func genDeclsKinds(t *Tape, envProb int, stringOnly bool) *DeclSet {
 			} else {
 				d.Def = t.Pick(validPool[ek])
 			}
+		}
+		d.Desc = drawDesc(t)
+		if d.Kind == KString && t.Draw(12) == 0 {
+			d.Def = "http://example.com/" + strings.Repeat("a-very-long-path-segment/", 4)
 		}
 		ds.Opts = append(ds.Opts, d)
 	}
@@ -83,6 +106,7 @@ func genDeclsKinds(t *Tape, envProb int, stringOnly bool) *DeclSet {
 		if t.Draw(16) < envProb {
 			d.EnvVars = []int{6}
 		}
+		d.Desc = drawDesc(t)
 		ds.Args = append(ds.Args, d)
 	}
 	return ds
